@@ -120,10 +120,8 @@ func newFileStore(sessionID quickfix.SessionID, dirname string, fileSync bool) (
 
 // Reset deletes the store files and sets the seqnums back to 1.
 func (store *fileStore) Reset() error {
-	if err := store.cache.Reset(); err != nil {
-		return errors.Wrap(err, "cache reset")
-	}
-
+	// (The cached counters are reset by the Refresh at the end, once the files are gone: a reset that
+	// cannot even close its files leaves the store as it was.)
 	if err := store.Close(); err != nil {
 		return errors.Wrap(err, "close")
 	}
